@@ -117,6 +117,9 @@ def gen_clauses(rng, n):
              "knockout": rng.choice([1.02, 1.05, 1.1]), "square": 0.0}[k]
         # names are drawn at random so that registration order differs from alphabetical order
         out.append({"name": "%s%d" % (rng.choice(["zeta", "alpha", "mid", "beta", "omega", "cap", "a"]), i), "kind": k, "v": v})
+        if k in ("scale", "shift", "square") and rng.chance(0.25):
+            # the very same callable object registered once more under another name (applied twice)
+            out.append({"name": "again%d" % i, "kind": k, "v": v, "same_callable_as": out[-1]["name"]})
     return out
 
 
